@@ -831,7 +831,7 @@ impl<T: Send> Stream for AsyncReceiver<T> {
       return Poll::Ready(None);
     }
 
-    let state_ptr = &this.state as *const AtomicU8;
+    let state_ptr = &*this.state as *const AtomicU8;
     this.is_registered = true;
 
     match this.shared.poll_recv_internal(cx, state_ptr) {
